@@ -92,3 +92,16 @@ reg('C19',
     'the pyx model. A violation is replayed by re-running the two grid cells involved.',
     'complete enumeration of a configuration grid (hash seed x process x order x cached/uncached/copy) on the real implementation',
     'DESIGN.md s5 C19')
+
+reg('C20',
+    'Small scope: every molecule of D(<=4 atoms, <=2 deviations) over C,N,O,S,F,Cl,Br with charges, isotopes, radicals (thorough <=5 atoms) is built '
+    'independently in both toolkits from one plain spec, under ALL atom numberings and insertion orders on the chython side and ALL RenumberAtoms '
+    'permutations on the RDKit side; both bridge directions and both round trips are run for each. Text scope: a ring/double-bond stereo family '
+    '(every label combination) and the corpus (stride 8; thorough all) as written and in Kekule form under 9 GEN renumberings, including chython '
+    'molecules that came from a renumbered RDKit molecule and remapped molecules with a 2D layout. Judges: RDKit canonical isomeric SMILES or mutual '
+    'chirality-aware substructure match on one side, chython canonical SMILES on the other, plus per-atom element/isotope/charge/radical/H/map number/xy and bond orders under the index map.',
+    'Trusted: RDKit as the independent judge. Out of domain (counted, executed, not judged): RDKit-rejected inputs, inputs on which the two valence '
+    'models disagree before conversion, non-carbon stereocentres, RDKit-aromatic rings outside chython aromaticity (compared through RDKit Kekule form), '
+    'chython canonical strings that differ while RDKit proves identity (C01 exclusion i).',
+    'bounded exhaustive enumeration (molecules x numberings on both sides x bridge directions) on the real bridge vs RDKit',
+    'DESIGN.md s5 C20')
